@@ -1441,6 +1441,14 @@ class Analysis:
             dv = self.ret_discr(name, t, self, st)
             if dv is not None:
                 paths[(("discr",),)] = dv
+            if self.ret_paths is not None:
+                # scalar payloads of the variants (`fn top_limb(&self) -> Option<usize>`: Some(i) with i < LIMBS)
+                rp = self.ret_paths(name, t, self, st)
+                for p_, iv in (rp or {}).items():
+                    if p_ and p_[0][0] == "dc":
+                        paths[p_] = iv
+                    elif p_ == (("discr",),) and dv is None:
+                        paths[p_] = iv     # e.g. always None when LIMBS == 0
         elif self.ret_paths is not None and name in self.v.prog.bodies and rng is None \
                 and self.v.local_ty(d)["k"] == "tuple":
             rp = self.ret_paths(name, t, self, st)
@@ -2285,6 +2293,23 @@ class Analysis:
                         hi_ = min([t_ for t_ in self.thresholds if y[1] <= t_ <= rng[1]], default=rng[1])
                     j = (lo_, hi_)
                 r.iv[k] = j
+
+        def other_excludes_variant(k, other):
+            """k is a payload path under enum variant v of local l; the other state knows l is NOT variant v there."""
+            if not (isinstance(k, tuple) and k[0] == "pl"):
+                return False
+            for i_, e in enumerate(k[2]):
+                if e[0] == "dc":
+                    dv = other.iv.get(("pl", k[1], k[2][:i_] + (("discr",),)))
+                    return dv is not None and not (dv[0] <= e[1] <= dv[1])
+            return False
+        # the payload of `Some(i)` survives a join with a path on which the value is `None`
+        for k, iv in a.iv.items():
+            if k not in b.iv and other_excludes_variant(k, b):
+                r.iv[k] = iv
+        for k, iv in b.iv.items():
+            if k not in a.iv and other_excludes_variant(k, a):
+                r.iv[k] = iv
         for k in a.arr:
             if k in b.arr and len(a.arr[k]) == len(b.arr[k]):
                 erng = self.arrlen[k][1]
@@ -2412,16 +2437,38 @@ class Analysis:
         """{field path: interval} of the tuple / struct this function returns: scalar fields whose interval is known
         on every return path."""
         out = None
+        variant = {}       # payload paths of an enum variant: joined over the return paths that can return that variant
+        dead = set()
         for b in self.v.return_blocks():
             st = self.state_before_term(b)
             if st is None:
                 continue
             cur = {k[2]: iv for k, iv in st.iv.items() if isinstance(k, tuple) and k[0] == "pl" and k[1] == 0}
+            dv = cur.get((("discr",),))
+            seen_v = set()
+            for p_, iv in cur.items():
+                if p_ and p_[0][0] == "dc":
+                    k_ = p_[0][1]
+                    seen_v.add(k_)
+                    if dv is not None and dv[0] <= k_ <= dv[1] and p_ not in dead:
+                        variant[p_] = iv if p_ not in variant else join(variant[p_], iv)
+            # a return path that may return variant k without a known payload makes that payload unknown
+            for p_ in list(variant):
+                k_ = p_[0][1]
+                if p_ not in cur and (dv is None or dv[0] <= k_ <= dv[1]):
+                    dead.add(p_)
+                    del variant[p_]
+            if dv is None:
+                dead |= set(variant)
+                variant.clear()
+            cur = {p_: iv for p_, iv in cur.items() if not (p_ and p_[0][0] == "dc")}
             if out is None:
                 out = cur
             else:
                 out = {p_: join(out[p_], cur[p_]) for p_ in out if p_ in cur}
-        return out or {}
+        res = dict(out or {})
+        res.update(variant)
+        return res
 
     def return_discr(self):
         """Interval of the discriminant of the enum value this function returns (None if unknown)."""
